@@ -1024,7 +1024,9 @@ Proof.
   cbn [bind].
   set (Us := GR_tot_s g) in *. set (Ub := GR_tot_b g) in *.
   rewrite WD_signed_sub_ok by lia. cbn [bind].
-  unfold GR_sgn at 1 2. assert (E : (hs_phb (h_state h) <=? balance) = true) by lia. rewrite E.
+  assert (E : (hs_phb (h_state h) <=? balance) = true) by lia.
+  replace (GR_sgn balance (hs_phb (h_state h))) with (balance - hs_phb (h_state h), false)
+    by (unfold GR_sgn; rewrite E; reflexivity).
   cbn [fst snd negb].
   set (A := balance - hs_phb (h_state h)). assert (HA : A <= D) by lia.
   rewrite WD_add256_ok by lia. cbn [bind].
@@ -1087,4 +1089,300 @@ Proof.
   pose proof (WD_user_val_le_R h1 sender) as Hle.
   destruct HE1 as (HbD & _). pose proof WD_c_D128.
   apply WD_withdraw_ok; try assumption; lia.
+Qed.
+
+(** ** 10. The funding invariant under the other hub handlers *)
+
+(** transitions that keep prev_hub_balance and the value of the released claims *)
+Definition WD_keeps (h h' : hub) : Prop :=
+  hs_phb (h_state h') = hs_phb (h_state h) /\ WD_R h' = WD_R h.
+
+Theorem WD_fund_frame h h' bank bank' :
+  WD_keeps h h' -> bank <= bank' -> WD_Fund h bank -> WD_Fund h' bank'.
+Proof. intros [Hp HR] Hb [F1 F2]. unfold WD_Fund. rewrite Hp, HR. split; lia. Qed.
+
+Lemma WD_keeps_refl h : WD_keeps h h. Proof. split; reflexivity. Qed.
+Lemma WD_keeps_trans a b c : WD_keeps a b -> WD_keeps b c -> WD_keeps a c.
+Proof. intros [A1 A2] [B1 B2]. split; congruence. Qed.
+
+Lemma WD_keeps_same h h' :
+  h_wait h' = h_wait h -> h_hist h' = h_hist h -> hs_phb (h_state h') = hs_phb (h_state h) ->
+  WD_keeps h h'.
+Proof. intros Hw Hh Hp. split; [exact Hp|]. unfold WD_R. rewrite Hw, Hh. reflexivity. Qed.
+
+Lemma WD_qas_phb w self h s :
+  query_actual_state w self h = Some s -> hs_phb s = hs_phb (h_state h).
+Proof.
+  unfold query_actual_state. intros H.
+  destruct (all_delegations (w_env w) self) as [|d0 dr]; [inversion H; reflexivity|].
+  bind_inv H as actual Ha. bind_inv H as st Hst.
+  destruct (st =? 0); [inversion H; reflexivity|].
+  bind_inv H as bi Hbi. bind_inv H as si Hsi. bind_inv H as s1 Hs1.
+  bind_inv H as ber Hber. bind_inv H as ser Hser. inversion H; subst s. cbn [set_rates hs_phb].
+  destruct (actual <? st).
+  - bind_inv Hs1 as r Hr. bind_inv Hs1 as bb Hbb. bind_inv Hs1 as bst Hbst.
+    inversion Hs1; subst s1. reflexivity.
+  - inversion Hs1; subst s1. reflexivity.
+Qed.
+
+Lemma WD_slashing_keeps w self h h1 :
+  slashing w self h = Some h1 ->
+  h_wait h1 = h_wait h /\ h_hist h1 = h_hist h /\ hs_phb (h_state h1) = hs_phb (h_state h) /\
+  h_batch h1 = h_batch h.
+Proof.
+  unfold slashing. intros H. bind_inv H as s Hs. apply WD_qas_phb in Hs.
+  inversion H; subst h1. cbn. repeat split. exact Hs.
+Qed.
+
+Lemma WD_bond_keeps w h self sender funds k h' out :
+  execute_bond w h self sender funds k = Some (h', out) -> WD_keeps h h'.
+Proof.
+  unfold execute_bond. intros H.
+  bind_inv H as dispaddr Hd. check_inv H as Hauth. check_inv H as Hlen.
+  bind_inv H as pay Hpay. bind_inv H as h1 Hh1.
+  apply WD_slashing_keeps in Hh1. destruct Hh1 as (F1 & F2 & F3 & _).
+  bind_inv H as mint Hmint. bind_inv H as supply Hsupply. bind_inv H as s' Hs'.
+  assert (Hphb : hs_phb s' = hs_phb (h_state h1)).
+  { destruct k.
+    - bind_inv Hs' as bb Hbb. bind_inv Hs' as ber Hber. inversion Hs'; reflexivity.
+    - bind_inv Hs' as bst Hbst. inversion Hs'; reflexivity.
+    - bind_inv Hs' as bst Hbst. bind_inv Hs' as ser Hser. inversion Hs'; reflexivity. }
+  bind_inv H as vals Hvals. destruct vals as [|v0 vr]; [discriminate|].
+  bind_inv H as r Hr.
+  assert (Hh' : h_wait h' = h_wait h1 /\ h_hist h' = h_hist h1 /\ h_state h' = s').
+  { destruct k.
+    - bind_inv H as tok Htok. inversion H; subst. cbn. repeat split.
+    - bind_inv H as tok Htok. inversion H; subst. cbn. repeat split.
+    - inversion H; subst. cbn. repeat split. }
+  destruct Hh' as (G1 & G2 & G3).
+  apply WD_keeps_same; [congruence | congruence | rewrite G3; congruence].
+Qed.
+
+Lemma WD_convert_sb_keeps w h self amount user h' out :
+  convert_stsei_bsei w h self amount user = Some (h', out) -> WD_keeps h h'.
+Proof.
+  unfold convert_stsei_bsei. intros H.
+  bind_inv H as h1 Hh1. apply WD_slashing_keeps in Hh1. destruct Hh1 as (F1 & F2 & F3 & _).
+  bind_inv H as a1 E1. bind_inv H as a2 E2. bind_inv H as a3 E3. bind_inv H as a4 E4.
+  bind_inv H as a5 E5. bind_inv H as a6 E6. bind_inv H as a7 E7. bind_inv H as a8 E8.
+  bind_inv H as a9 E9. bind_inv H as a10 E10. bind_inv H as a11 E11. bind_inv H as a12 E12.
+  bind_inv H as a13 E13. inversion H; subst h'.
+  apply WD_keeps_same; cbn; assumption.
+Qed.
+
+Lemma WD_convert_bs_keeps w h self amount user h' out :
+  convert_bsei_stsei w h self amount user = Some (h', out) -> WD_keeps h h'.
+Proof.
+  unfold convert_bsei_stsei. intros H.
+  bind_inv H as h1 Hh1. apply WD_slashing_keeps in Hh1. destruct Hh1 as (F1 & F2 & F3 & _).
+  bind_inv H as a1 E1. bind_inv H as a2 E2. bind_inv H as a3 E3. bind_inv H as a4 E4.
+  bind_inv H as a5 E5. bind_inv H as a6 E6. bind_inv H as a7 E7. bind_inv H as a8 E8.
+  bind_inv H as a9 E9. bind_inv H as a10 E10. bind_inv H as a11 E11. bind_inv H as a12 E12.
+  bind_inv H as a13 E13. inversion H; subst h'.
+  apply WD_keeps_same; cbn; assumption.
+Qed.
+
+Lemma WD_update_global_keeps w h self sender n h' out :
+  execute_update_global w h self sender n = Some (h', out) -> WD_keeps h h'.
+Proof.
+  unfold execute_update_global. intros H. check_inv H as Hauth.
+  bind_inv H as d Hd. bind_inv H as hooks Hhooks. inversion H; subst h'.
+  apply WD_keeps_same; reflexivity.
+Qed.
+
+(** the open batch has no released history entry (part of the C08 life-cycle invariant:
+    history has exactly the ids below the open batch) *)
+Definition WD_open_unreleased (h : hub) : Prop := WD_rel (h_hist h) (cb_id (h_batch h)) = false.
+
+Lemma WD_R_set_wait hist (m : fmap (addr * N) (N * N)) k v :
+  WD_rel hist (snd k) = false ->
+  sumN (map (WD_entry_val hist) (set eqbAN m k v)) = sumN (map (WD_entry_val hist) m).
+Proof.
+  intros Hr. induction m as [|[k' v'] r IH]; cbn [set map sumN].
+  - rewrite (WD_entry_val_unreleased hist (k, v) Hr). reflexivity.
+  - destruct (eqbAN k k') eqn:E; cbn [map sumN].
+    + apply eqbNN_eq in E. subst k'.
+      rewrite (WD_entry_val_unreleased hist (k, v) Hr), (WD_entry_val_unreleased hist (k, v') Hr). reflexivity.
+    + rewrite IH. reflexivity.
+Qed.
+
+Lemma WD_add_wait_keeps h u is_b amt h' :
+  add_wait h u (cb_id (h_batch h)) is_b amt = Some h' -> WD_open_unreleased h ->
+  WD_keeps h h' /\ h_hist h' = h_hist h /\ h_batch h' = h_batch h /\ h_state h' = h_state h.
+Proof.
+  unfold add_wait. destruct (wait_of h u (cb_id (h_batch h))) as [x y]. intros H Ho.
+  bind_inv H as x' Hx. bind_inv H as y' Hy. inversion H; subst h'. cbn.
+  repeat split. unfold WD_R. cbn [h_hist h_wait set_h_wait].
+  apply WD_R_set_wait. exact Ho.
+Qed.
+
+Lemma WD_entry_val_hist_put hist i e kv :
+  he_released e = false -> WD_rel hist i = false ->
+  WD_entry_val (hist_put hist i e) kv = WD_entry_val hist kv.
+Proof.
+  intros He Hr. unfold WD_entry_val.
+  destruct (N.eq_dec (snd (fst kv)) i) as [->|Hne].
+  - rewrite WD_get_put_same, He. unfold WD_rel in Hr.
+    destruct (get N.eqb hist i) as [e0|]; [rewrite Hr|]; reflexivity.
+  - rewrite (WD_get_put_other _ _ _ _ Hne). reflexivity.
+Qed.
+
+Lemma WD_maybe_undelegate_keeps w self h h' out :
+  maybe_undelegate w self h = Some (h', out) -> WD_open_unreleased h -> WD_keeps h h'.
+Proof.
+  unfold maybe_undelegate. intros H Ho. bind_inv H as p Hp.
+  destruct (hp_epoch (h_params h) <? p); [|inversion H; subst; apply WD_keeps_refl].
+  unfold process_undelegations in H.
+  bind_inv H as a1 E1. bind_inv H as a2 E2. bind_inv H as a3 E3. bind_inv H as a4 E4.
+  bind_inv H as a5 E5. bind_inv H as a6 E6. bind_inv H as a7 E7. inversion H; subst h'.
+  split; [reflexivity|]. unfold WD_R. cbn [h_hist h_wait set_h_state set_h_batch set_h_hist].
+  f_equal. apply map_ext. intros kv. apply WD_entry_val_hist_put; [reflexivity | exact Ho].
+Qed.
+
+Lemma WD_unbond_keeps w h self amount user h' out :
+  execute_unbond w h self amount user = Some (h', out) -> WD_open_unreleased h -> WD_keeps h h'.
+Proof.
+  unfold execute_unbond. intros H Ho.
+  bind_inv H as h1 Hh1. apply WD_slashing_keeps in Hh1. destruct Hh1 as (F1 & F2 & F3 & F4).
+  bind_inv H as supply Hs. bind_inv H as awf Hawf. bind_inv H as reqb Hreqb.
+  bind_inv H as h2 Hh2.
+  assert (Ho1 : WD_open_unreleased h1) by (unfold WD_open_unreleased; rewrite F2, F4; exact Ho).
+  apply WD_add_wait_keeps in Hh2; [|exact Ho1]. destruct Hh2 as (K2 & G1 & G2 & G3).
+  bind_inv H as supply' Hs'. bind_inv H as ber Hber. bind_inv H as r Hr. destruct r as [h4 msgs].
+  apply WD_maybe_undelegate_keeps in Hr.
+  - bind_inv H as tok Htok. inversion H; subst h'.
+    eapply WD_keeps_trans; [apply WD_keeps_same; [exact F1|exact F2|exact F3]|].
+    eapply WD_keeps_trans; [exact K2|].
+    eapply WD_keeps_trans; [|exact Hr].
+    split; [cbn; rewrite G3; reflexivity | reflexivity].
+  - unfold WD_open_unreleased. cbn [h_hist h_batch set_h_batch set_h_state cb_id].
+    rewrite G1. exact Ho1.
+Qed.
+
+Lemma WD_unbond_stsei_keeps w h self amount user h' out :
+  execute_unbond_stsei w h self amount user = Some (h', out) -> WD_open_unreleased h -> WD_keeps h h'.
+Proof.
+  unfold execute_unbond_stsei. intros H Ho.
+  bind_inv H as h1 Hh1. apply WD_slashing_keeps in Hh1. destruct Hh1 as (F1 & F2 & F3 & F4).
+  bind_inv H as reqst Hreq. bind_inv H as h2 Hh2.
+  assert (Ho1 : WD_open_unreleased h1) by (unfold WD_open_unreleased; rewrite F2, F4; exact Ho).
+  apply WD_add_wait_keeps in Hh2; [|exact Ho1]. destruct Hh2 as (K2 & G1 & G2 & G3).
+  bind_inv H as r Hr. destruct r as [h4 msgs].
+  apply WD_maybe_undelegate_keeps in Hr.
+  - bind_inv H as tok Htok. inversion H; subst h'.
+    eapply WD_keeps_trans; [apply WD_keeps_same; [exact F1|exact F2|exact F3]|].
+    eapply WD_keeps_trans; [exact K2|].
+    eapply WD_keeps_trans; [|exact Hr].
+    split; reflexivity.
+  - unfold WD_open_unreleased. cbn [h_hist h_batch set_h_batch cb_id].
+    rewrite G1. exact Ho1.
+Qed.
+
+Lemma WD_receive_keeps w h self sender user amount hk h' out :
+  receive_cw20 w h self sender user amount hk = Some (h', out) -> WD_open_unreleased h -> WD_keeps h h'.
+Proof.
+  unfold receive_cw20. intros H Ho. bind_inv H as b Hb. bind_inv H as st Hst.
+  destruct hk; [| |discriminate].
+  - destruct (sender =? b); [eapply WD_unbond_keeps; eauto|].
+    destruct (sender =? st); [eapply WD_unbond_stsei_keeps; eauto|discriminate].
+  - destruct (sender =? b); [eapply WD_convert_bs_keeps; eauto|].
+    destruct (sender =? st); [eapply WD_convert_sb_keeps; eauto|discriminate].
+Qed.
+
+(** every hub message except WithdrawUnbonded keeps prev_hub_balance and the value of released claims
+    (hypotheses: no legacy wait list (E6); the open batch has no released history entry) *)
+Theorem WD_hub_execute_keeps w h self sender funds m h' out :
+  hub_execute w h self sender funds m = Some (h', out) ->
+  m <> HWithdraw -> h_oldwait h = [] -> WD_open_unreleased h ->
+  WD_keeps h h'.
+Proof.
+  unfold hub_execute. intros H Hm Hold Ho.
+  destruct m.
+  - check_inv H as Hp. eapply WD_bond_keeps; eauto.
+  - check_inv H as Hp. eapply WD_bond_keeps; eauto.
+  - check_inv H as Hp. eapply WD_bond_keeps; eauto.
+  - check_inv H as Hp. eapply WD_update_global_keeps; eauto.
+  - contradiction.
+  - check_inv H as Hp. bind_inv H as h1 Hh1. inversion H; subst h'.
+    apply WD_slashing_keeps in Hh1. destruct Hh1 as (F1 & F2 & F3 & _). apply WD_keeps_same; assumption.
+  - unfold execute_update_params in H. check_inv H as Hs. check_inv H as Hf. check_inv H as Hz.
+    inversion H; subst h'. apply WD_keeps_same; reflexivity.
+  - check_inv H as Hp. unfold execute_update_config in H.
+    check_inv H as Hs. check_inv H as Hb1. check_inv H as Hb2. inversion H; subst h'.
+    apply WD_keeps_same; reflexivity.
+  - check_inv H as Hp. check_inv H as Hs. inversion H; subst h'. apply WD_keeps_same; reflexivity.
+  - check_inv H as Hp. check_inv H as Hs. inversion H; subst h'. apply WD_keeps_same; reflexivity.
+  - check_inv H as Hp. bind_inv H as reg Hreg. check_inv H as Hs. inversion H; subst. apply WD_keeps_refl.
+  - check_inv H as Hp. check_inv H as Hs. bind_inv H as t Ht. check_inv H as Hb.
+    inversion H; subst. apply WD_keeps_refl.
+  - check_inv H as Hp. bind_inv H as reg Hreg. check_inv H as Hs. inversion H; subst. apply WD_keeps_refl.
+  - destruct (paused h); [|discriminate]. inversion H; subst h'.
+    unfold migrate_wait_lists. rewrite Hold. rewrite firstn_nil. apply WD_keeps_refl.
+  - check_inv H as Hp. eapply WD_receive_keeps; eauto.
+Qed.
+
+(** ** 11. Non-vacuity: a concrete hub satisfying every hypothesis above
+    History = the former F3 witness (stSei batches 1, 1, 1000 at rate 0.9, not yet released);
+    users 20, 21 hold the dust batches, users 22 and 23 hold 600 and 400 of batch 3, user 22 also has
+    a claim on the open batch 4; 810 of the expected 900 coins are in the hub's balance. *)
+Definition WD_ex_hub : hub :=
+  mkHub (mkHubConfig A_owner A_owner None None None None None None)
+        (mkHubState D D 0 0 0 0 0 0)
+        (mkHubParams 30 usei 100 0 D uusd (Some false))
+        (mkBatch 4 0 0) A_owner
+        [((20, 1), (0, 1)); ((21, 2), (0, 1)); ((22, 3), (0, 600)); ((23, 3), (0, 400)); ((22, 4), (5, 5))]
+        GR_ex_g [].
+Definition WD_ex_world (balance : N) : world :=
+  mkWorld None None None None None None (set_bank (empty_env 100) [((A_hub, usei), balance)]).
+
+Lemma WD_ex_group : GR_group WD_ex_hub (e_now (w_env (WD_ex_world 810)) - 100) = GR_ex_g.
+Proof. vm_compute. reflexivity. Qed.
+
+Example WD_ex_hyps_nonvacuous :
+  let w := WD_ex_world 810 in
+  let h := WD_ex_hub in
+  let balance := bal (w_env w) A_hub (hp_underlying (h_params h)) in
+  let g := GR_group h (e_now (w_env w) - hp_unbonding (h_params h)) in
+  hp_unbonding (h_params h) <= e_now (w_env w) /\
+  WD_Fund h balance /\ WD_E1 g balance /\ GR_E1' g (balance - hs_phb (h_state h)) /\
+  WD_claims_le h g /\ WD_open_unreleased h /\ h_oldwait h = [].
+Proof.
+  cbv zeta. change (hp_unbonding (h_params WD_ex_hub)) with 100. rewrite WD_ex_group.
+  change (bal (w_env (WD_ex_world 810)) A_hub (hp_underlying (h_params WD_ex_hub))) with 810.
+  change (hs_phb (h_state WD_ex_hub)) with 0.
+  split; [apply N.leb_le; vm_compute; reflexivity|].
+  split; [split; apply N.leb_le; vm_compute; reflexivity|].
+  split.
+  { split; [apply N.leb_le; vm_compute; reflexivity|].
+    split; [apply N.leb_le; vm_compute; reflexivity|].
+    intros i e [H|[H|[H|[]]]]; inversion H; subst; repeat split; apply N.leb_le; vm_compute; reflexivity. }
+  split; [exact GR_ex_E1'|].
+  split.
+  { intros i e [H|[H|[H|[]]]]; inversion H; subst; split; apply N.leb_le; vm_compute; reflexivity. }
+  split; reflexivity.
+Qed.
+
+(** user 22 is paid 485 = floor(600 * 0.809), user 23 then 323 = floor(400 * 0.809); 808 <= 810;
+    a repeated withdrawal of user 22 fails; user 20, whose claim is worth 0, fails;
+    the reverse order pays the same amounts and ends in the same state *)
+Example WD_ex_run :
+  exists h22 h23,
+    execute_withdraw (WD_ex_world 810) WD_ex_hub A_hub 22 = Some (h22, [MBank 22 [(usei, 485)]]) /\
+    execute_withdraw (WD_ex_world 325) h22 A_hub 23 = Some (h23, [MBank 23 [(usei, 323)]]) /\
+    execute_withdraw (WD_ex_world 325) h22 A_hub 22 = None /\
+    execute_withdraw (WD_ex_world 325) h22 A_hub 20 = None /\
+    hs_phb (h_state h23) = 2 /\ WD_R h23 = 0 /\
+    exists h23', execute_withdraw (WD_ex_world 810) WD_ex_hub A_hub 23 = Some (h23', [MBank 23 [(usei, 323)]]) /\
+                 execute_withdraw (WD_ex_world 487) h23' A_hub 22 = Some (h23, [MBank 22 [(usei, 485)]]).
+Proof.
+  destruct (execute_withdraw (WD_ex_world 810) WD_ex_hub A_hub 22) as [[h22 m22]|] eqn:E1;
+    [|vm_compute in E1; discriminate].
+  destruct (execute_withdraw (WD_ex_world 325) h22 A_hub 23) as [[h23 m23]|] eqn:E2;
+    [|vm_compute in E1; inversion E1; subst; vm_compute in E2; discriminate].
+  exists h22, h23. vm_compute in E1. inversion E1; subst h22 m22. clear E1.
+  vm_compute in E2. inversion E2; subst h23 m23. clear E2.
+  split; [reflexivity|]. split; [reflexivity|].
+  split; [vm_compute; reflexivity|]. split; [vm_compute; reflexivity|].
+  split; [vm_compute; reflexivity|]. split; [vm_compute; reflexivity|].
+  eexists. split; vm_compute; reflexivity.
 Qed.
